@@ -4,8 +4,40 @@ from collections import defaultdict
 from .mir import short
 
 
-def fn_key(defname):
-    return defname
+_NAMES = {}
+
+
+def install_sass_names(prog):
+    """Closures registered as built-in Sass functions are named after the function they implement
+    (`sass:string.slice`) instead of by their rustc ordinal; other closures lose their ordinal
+    (`parent::{closure}`), so inserting an unrelated closure does not shift a key."""
+    from rules.C34 import registry
+    from . import sym
+    if prog.crate in _NAMES:
+        return _NAMES[prog.crate]
+    names = {}
+    try:
+        reg = registry(prog, sym.Sym(prog, inline_depth=0))
+        for (kind, mod, nm), impls in reg.items():
+            for i in impls:
+                if i and "{closure" in i:
+                    names[i] = f"sass:{mod}.{nm}" + ("" if kind == "module" else " (global)")
+    except Exception:
+        names = {}
+    _NAMES[prog.crate] = names
+    return names
+
+
+def fn_key(defname, prog=None):
+    names = install_sass_names(prog) if prog is not None else {}
+    best = None
+    for k, v in names.items():
+        if defname == k or defname.startswith(k + "::"):
+            if best is None or len(k) > len(best[0]):
+                best = (k, v)
+    if best:
+        return best[1] + re.sub(r"\{closure#\d+\}", "{closure}", defname[len(best[0]):])
+    return re.sub(r"\{closure#\d+\}", "{closure}", defname)
 
 
 class Ordinals:
